@@ -309,6 +309,28 @@ def sweep_cases(ctx):
     return out
 
 
+def long_axis_cases(ctx, n=2):
+    """one long axis (150..400 A: a layered compound, a protein) and a shell from 0 that reaches Miller indices of 100 and more -- anything
+    that packs, truncates or formats indices works for |h| < 100 only.  Orthogonal and hexagonal settings (closed walks)."""
+    out = []
+    pool = [s for s in settings() if s['cs'] in ('orthorhombic', 'tetragonal', 'hexagonal') and s['cell_choice'] != 'rhombohedral']
+    for s in ctx.rng.sample(pool, min(len(pool), 4 * n)):
+        cell = gens.conforming_cell(ctx.rng, s['cs'], 'standard')
+        cell = [float(round(min(cell[0], 5.0), 3)), float(round(min(cell[1], 5.0), 3)), float(round(ctx.rng.uniform(150.0, 400.0), 3))] + [float(round(x, 3)) for x in cell[3:]]
+        if s['cs'] in ('tetragonal', 'hexagonal'):
+            cell[1] = cell[0]
+        smax = float(round(ctx.rng.uniform(100.5, 125.0) / (2.0 * cell[2]), 6))
+        try:
+            c = Case(s, cell, 0.0, smax)
+        except Exception:
+            continue
+        if c.ok:
+            out.append(c)
+        if len(out) >= n:
+            break
+    return out
+
+
 def scale_rule_cases(ctx, per_setting=2, tries=60):
     """cases on which the sintl_scale rule of genhkl_base decides whether a reflection is found (deep shells of acute cells in the
     settings the reviewed rule names): without them the rule is dead code for every stream"""
@@ -673,7 +695,7 @@ def oracle(ctx, hints=()):
         viol += v
         d2 += k
         evals += 1
-    sr = scale_rule_cases(ctx, per_setting=ctx.n(1, 4, boost=3))
+    sr = scale_rule_cases(ctx, per_setting=ctx.n(1, 4, boost=3)) + long_axis_cases(ctx, 2)
     for i, c in enumerate(sr):
         v, k = check_all(c, 'tools' if (i + ctx.seed) % 2 == 0 else 'laue', 'no', (i,), variant=0)
         viol += v
